@@ -62,10 +62,35 @@ Theorem C11_delete_changes_nothing_else :
     delete (d ++ [info_name n]) (delete (d ++ [rsrc_name n]) (delete (d ++ [incomplete_name n]) (delete (d ++ [n]) w))) !! q = w !! q.
 Proof. exact delete_frame. Qed.
 
-(* rename / move, PARTIAL: proved for a file without side files (the file is under the new name with its bytes, the
-   old name is free, nothing else changes); for a file WITH side files wrapper_move repeats the same step for each
-   of them - that composition is established by the correspondence on real trees, not by a theorem *)
-Theorem C11_move_plain_file_partial :
+(* rename / move of a file WITH its side files: the whole group - data, partial data, resource fork, info fork -
+   is found under the new name, the old names are free, and nothing else changes.  Hypotheses: the file exists, its
+   side entries are not folders, the eight names involved are pairwise different, the new names are free, the
+   destination folder exists and is none of the old names. *)
+Theorem C11_move_carries_group :
+  forall (w : world) d d' n n' b,
+    w !! (d ++ [n]) = Some (NFile b) ->
+    (forall k x, In k [d ++ [incomplete_name n]; d ++ [rsrc_name n]; d ++ [info_name n]] -> w !! k = Some x -> x <> NDir) ->
+    (forall a, In a (group d n) -> In a (group d' n') -> False) ->
+    (forall k, In k (group d' n') -> w !! k = None) ->
+    (is_prefix (d ++ [n]) (d' ++ [n']) = false /\ is_prefix (d ++ [incomplete_name n]) (d' ++ [incomplete_name n']) = false /\
+     is_prefix (d ++ [rsrc_name n]) (d' ++ [rsrc_name n']) = false /\ is_prefix (d ++ [info_name n]) (d' ++ [info_name n']) = false) ->
+    (d' = [] \/ w !! d' = Some NDir) -> ~ In d' (group d n) ->
+    wrapper_move w d n d' n' = Some (moved w d d' n n') /\
+    (moved w d d' n n' !! (d' ++ [n']) = Some (NFile b) /\
+     moved w d d' n n' !! (d' ++ [incomplete_name n']) = w !! (d ++ [incomplete_name n]) /\
+     moved w d d' n n' !! (d' ++ [rsrc_name n']) = w !! (d ++ [rsrc_name n]) /\
+     moved w d d' n n' !! (d' ++ [info_name n']) = w !! (d ++ [info_name n]) /\
+     moved w d d' n n' !! (d ++ [n]) = None /\ moved w d d' n n' !! (d ++ [incomplete_name n]) = None /\
+     moved w d d' n n' !! (d ++ [rsrc_name n]) = None /\ moved w d d' n n' !! (d ++ [info_name n]) = None) /\
+    (forall q, ~ In q (group d n) -> ~ In q (group d' n') -> moved w d d' n n' !! q = w !! q).
+Proof.
+  intros w d d' n n' b H1 H2 H3 H4 H5 H6 H7. split; [|split].
+  - now apply wrapper_move_group with (b := b).
+  - now apply moved_members.
+  - intros q. now apply moved_frame.
+Qed.
+(* the special case of a file without side files, stated on its own *)
+Theorem C11_move_plain_file :
   forall (w : world) d n d' n' b,
     w !! (d ++ [n]) = Some (NFile b) ->
     w !! (d ++ [incomplete_name n]) = None -> w !! (d ++ [rsrc_name n]) = None -> w !! (d ++ [info_name n]) = None ->
@@ -103,5 +128,6 @@ Print Assumptions C11_ignored_entries_not_listed.
 Print Assumptions C11_sizes_agree.
 Print Assumptions C11_delete_removes_group.
 Print Assumptions C11_delete_changes_nothing_else.
-Print Assumptions C11_move_plain_file_partial.
+Print Assumptions C11_move_carries_group.
+Print Assumptions C11_move_plain_file.
 Print Assumptions C11_mkdir_never_replaces.
